@@ -188,7 +188,57 @@ def order_typestate_rules(chk, S, r3):
 
 def run(chk, S: Session):
     _run_own(chk, S)
+    residual_routine_rules(chk, S)
     from ..harness import borrow
 
     rb = chk.rule("R-C10-B", "clause of this statement decided by a rule of C11 (the residual-based routine differentiates through jet_lift: time is a differentiated input there)", floor=6)
     borrow(chk, S, rb, "C11", lambda r, c: r == "R-C11-2")
+
+
+def residual_routine_rules(chk, S):
+    """The residual-based routine determines all requested coefficients through ONE constrained least-squares problem; its inner solve must not discard
+    directions of that (unit lower-triangular, hence exactly solvable, but badly scaled) system."""
+    import ast
+
+    from ..harness import TPOINTS
+
+    r4 = chk.rule("R-C10-4", "jetexpand_residual: the linear solve behind the default constrained least-squares solver keeps every direction of the triangular system (no rank cutoff)", floor=1)
+    it = S.interp()
+    try:
+        mk = it.function_value(f"{JETEXP}.jetexpand_residual")
+        alg = it.call(mk, [], {"num": 3}, "<harness>")
+    except (AnalysisError, RaiseSignal) as e:
+        r4.unknown("jetexpand_residual default solver", str(e), JETEXP)
+        return
+    # the closure's captured solver: re-evaluate the default expression of the parameter
+    fn = S.p.module(JETEXP).functions["jetexpand_residual"]
+    src = ast.unparse(fn)
+    uses_default_gn = "lstsq_constrained_gauss_newton()" in src
+    gn = S.p.find_class(TPOINTS + ".lstsq_constrained_gauss_newton")
+    init = gn.methods.get("__init__") if gn else None
+    default_lstsq = None
+    if init is not None:
+        for p_, d_ in zip(init.args.kwonlyargs, init.args.kw_defaults):
+            if p_.arg == "lstsq" and d_ is not None:
+                default_lstsq = ast.unparse(d_)
+    if not uses_default_gn or default_lstsq is None:
+        r4.unknown("jetexpand_residual default solver", f"default solver chain not recognised (default Gauss-Newton: {uses_default_gn}, default lstsq: {default_lstsq})", JETEXP)
+        return
+    # resolve the backend primitive and look at how it calls the library routine
+    prim_name = default_lstsq.rsplit(".", 1)[-1]
+    bm = S.p.module("probdiffeq.backend.linalg")
+    bfn = bm.functions.get(prim_name)
+    if bfn is None:
+        r4.unknown("jetexpand_residual default solver", f"backend function {prim_name} not found", bm.relpath)
+        return
+    calls = [n for n in ast.walk(bfn) if isinstance(n, ast.Call) and ast.unparse(n.func).endswith("linalg.lstsq")]
+    if not calls:
+        r4.ok("jetexpand_residual inner solve", f"{default_lstsq} does not go through a rank-revealing lstsq", f"{bm.relpath}:{bfn.lineno}")
+        return
+    c = calls[0]
+    rc = next((k.value for k in c.keywords if k.arg == "rcond"), None)
+    keeps_all = rc is not None and isinstance(rc, ast.Constant) and rc.value in (0, 0.0)
+    r4.require(keeps_all, "jetexpand_residual inner solve", f"{default_lstsq}: {ast.unparse(c)}",
+               f"jetexpand_residual -> lstsq_constrained_gauss_newton() -> lstsq={default_lstsq} -> {ast.unparse(c)}: the default cutoff rcond = eps*max(M, N) discards the smallest singular direction of "
+               "H = J L, which is unit lower-triangular (exactly solvable) but has sub-diagonal entries that grow like the Taylor coefficients; the low-order rows are then never enforced",
+               f"{bm.relpath}:{c.lineno}")
